@@ -24,10 +24,12 @@ Proof.
   replace (mu_j * 1 + 1 / 2 * (sigma_j * 1) ^ 2) with (mu_j + 1 / 2 * sigma_j ^ 2) by ring. field.
 Qed.
 
-Theorem martingale_direct_hem r d sigma lam p eta1 eta2 : eta1 <> 1 -> eta2 <> -1 ->
-  direct_growth (hem_process_drift r d sigma lam (hem_xi p eta1 eta2)) sigma (hem_pj lam p eta1 eta2 1) = r - d.
+Theorem martingale_direct_hem r d sigma lam p eta1 eta2 : 1 < eta1 -> eta2 <> -1 ->
+  direct_growth (hem_process_drift r d sigma lam eta1 (hem_xi p eta1 eta2)) sigma (hem_pj lam p eta1 eta2 1) = r - d.
 Proof.
-  intros H1 H2. unfold direct_growth, hem_process_drift, hem_xi, hem_pj. cbv beta iota zeta. field. split; lra.
+  intros H1 H2. unfold direct_growth, hem_process_drift, hem_xi, hem_pj.
+  replace (Rleb eta1 1) with false by (symmetry; apply Rleb_false; lra).
+  cbv beta iota zeta. field. split; lra.
 Qed.
 
 (* the simulated log-path is x0 + process_drift * t: the forward of the direct route is exp(x0) * exp((r-d) t) *)
@@ -211,24 +213,63 @@ Proof.
   - replace (- (1)) with (-1) by lra. ring.
 Qed.
 
+(* growth under the exact law of the measure the chain works with (first moments m1, compensated exponential moment Jc):
+   r - d minus the difference between the exponent the martingale correction omega was computed from and the exponent
+   kappa_chain(1) = center_drift(m1) + sigma^2/2 + Jc of the process the chain approximates.  Pure algebra. *)
+Theorem ctmc_growth_algebra r d sigma (pj : R -> R) Jc mu_h :
+  ctmc_growth_exact
+    (ctmc_process_drift (exp_model_drift r d (omega_of a0 sigma pj)) (tilde_drift INF m1 fv a0 (rep_code rep))
+                        (ctmc_mu_tilde INF m1 fv) mu_h) mu_h sigma Jc
+  = r - d - (kappa a0 sigma pj 1 - (center_drift INF m1 fv a0 (rep_code rep) + sigma ^ 2 / 2 + Jc)).
+Proof.
+  unfold ctmc_growth_exact, ctmc_process_drift, exp_model_drift, omega_of. rewrite <- tilde_plus_mu_tilde. field.
+Qed.
+
 Theorem martingale_ctmc r d sigma (pj : R -> R) Jc mu_h :
   kappa a0 sigma pj 1 = center_drift INF m1 fv a0 (rep_code rep) + sigma ^ 2 / 2 + Jc ->
   ctmc_growth_exact
     (ctmc_process_drift (exp_model_drift r d (omega_of a0 sigma pj)) (tilde_drift INF m1 fv a0 (rep_code rep))
                         (ctmc_mu_tilde INF m1 fv) mu_h) mu_h sigma Jc = r - d.
-Proof.
-  intros Hrep. unfold ctmc_growth_exact, ctmc_process_drift, exp_model_drift, omega_of. rewrite Hrep.
-  rewrite <- tilde_plus_mu_tilde. field.
-Qed.
+Proof. intros Hrep. rewrite ctmc_growth_algebra, Hrep. ring. Qed.
 End Ctmc.
 
-(* H_rep for a model declared in the ZERO representation whose exponent is int (e^{s x} - 1) nu: at s = 1 *)
-Lemma Hrep_zero_declared INF m1 fv a0 sigma (pj : R -> R) J0 Iall :
+(* H_rep for a model declared in the ZERO representation (finite variation) whose exponent is int (e^{s x} - 1) nu: at s = 1 *)
+Lemma Hrep_zero_declared INF m1 a0 sigma (pj : R -> R) J0 Iall :
   pj 1 = J0 -> Iall = m1 (- INF) (-1) + m1 (-1) 1 + m1 1 INF ->
-  kappa a0 sigma pj 1 = center_drift INF m1 fv a0 (rep_code ZERO) + sigma ^ 2 / 2 + (J0 - Iall).
+  kappa a0 sigma pj 1 = center_drift INF m1 true a0 (rep_code ZERO) + sigma ^ 2 / 2 + (J0 - Iall).
 Proof.
-  intros HJ HI. unfold kappa, center_drift. cbv beta iota zeta. rewrite (canonical_drift_spec INF m1 fv a0 ZERO).
+  intros HJ HI. unfold kappa, center_drift. cbv beta iota zeta.
+  rewrite (canonical_drift_spec INF m1 true a0 ZERO) by (left; reflexivity).
   unfold to_canonical, I11. rewrite HJ, HI. field.
+Qed.
+
+(* the chain truncates the measure first: conversions and mu_tilde use the first moments m1t of the TRUNCATED measure while
+   omega comes from the un-truncated exponent.  For a model declared ZERO (finite variation) the growth rate under the exact
+   truncated law (J0t = int_trunc (e^x - 1) nu) misses the forward by the exponential moment of the removed tails. *)
+Theorem ctmc_truncation_bias_zero INF m1t a0 r d sigma (pj : R -> R) J0 J0t It mu_h :
+  (m1t (- INF) (- 0) + m1t 0 INF = m1t (- INF) (-1) + m1t (-1) 1 + m1t 1 INF) ->
+  pj 1 = J0 -> It = m1t (- INF) (-1) + m1t (-1) 1 + m1t 1 INF ->
+  ctmc_growth_exact
+    (ctmc_process_drift (exp_model_drift r d (omega_of a0 sigma pj)) (tilde_drift INF m1t true a0 (rep_code ZERO))
+                        (ctmc_mu_tilde INF m1t true) mu_h) mu_h sigma (J0t - It)
+  = r - d - (J0 - J0t).
+Proof.
+  intros Hadd HJ HI. rewrite (ctmc_growth_algebra INF m1t true a0 ZERO (fun _ => Hadd)).
+  unfold kappa, center_drift. cbv beta iota zeta.
+  rewrite (canonical_drift_spec INF m1t true a0 ZERO) by (left; reflexivity).
+  unfold to_canonical, I11. rewrite HJ, HI. field.
+Qed.
+(* ... which is not zero as soon as the truncation removes mass with e^x - 1 of one sign: the CTMC route is not a martingale *)
+Theorem ctmc_truncation_refuted : exists INF m1t a0 r d sigma (pj : R -> R) J0t It mu_h,
+  (m1t (- INF) (- 0) + m1t 0 INF = m1t (- INF) (-1) + m1t (-1) 1 + m1t 1 INF) /\
+  It = m1t (- INF) (-1) + m1t (-1) 1 + m1t 1 INF /\ J0t < pj 1 /\
+  ctmc_growth_exact
+    (ctmc_process_drift (exp_model_drift r d (omega_of a0 sigma pj)) (tilde_drift INF m1t true a0 (rep_code ZERO))
+                        (ctmc_mu_tilde INF m1t true) mu_h) mu_h sigma (J0t - It) <> r - d.
+Proof.
+  exists 9, (fun _ _ => 0), 0, 0, 0, 0, (fun _ => 1), 0, 0, 0.
+  split; [ring|]. split; [ring|]. split; [lra|].
+  rewrite (ctmc_truncation_bias_zero 9 (fun _ _ => 0) 0 0 0 0 (fun _ => 1) 1 0 0 0); [lra | ring | reflexivity | ring].
 Qed.
 
 (* assembled statements for Properties/C10.v *)
